@@ -539,10 +539,19 @@ def _into_int(self, args):
     raise Unknown("Into::into of a non-integer")
 
 
+def _as_agg(v):
+    """a decoded constant unit variant (element of a const table) in the aggregate form the folder builds for enum values"""
+    if v[0] == "const" and isinstance(v[1], tuple) and v[1] and isinstance(v[1][0], tuple) and v[1][0][0] == "adt":
+        d = dict(i for i in v[1] if isinstance(i, tuple) and len(i) == 2)
+        if "variant" in d and "vidx" in d and not d.get("fields"):
+            return ("agg", "adt", d["adt"], d["variant"], (), d["vidx"])
+    return v
+
+
 def _struct_eq(a, b):
     """structural equality of two folded values (constants and aggregates of them); Unknown if anything is not folded"""
-    a = a[1] if a[0] == "ref" else a
-    b = b[1] if b[0] == "ref" else b
+    a = _as_agg(a[1] if a[0] == "ref" else a)
+    b = _as_agg(b[1] if b[0] == "ref" else b)
     if _isc(a) and _isc(b):
         return a[1] == b[1]
     if a[0] == "agg" and b[0] == "agg":
@@ -657,6 +666,10 @@ for _a in _INT_RANGES:
 def show(v):
     """printable form of a folded value"""
     if v[0] == "const":
+        if isinstance(v[1], tuple) and v[1] and isinstance(v[1][0], tuple) and v[1][0][0] == "adt":
+            d = dict(i for i in v[1] if isinstance(i, tuple) and len(i) == 2)
+            if "variant" in d and not d.get("fields"):
+                return d["adt"].split("::")[-1] + "::" + d["variant"]        # a constant unit variant (e.g. an element of a const table) like its aggregate form
         return v[1]
     if v[0] == "agg":
         if v[1] == "adt":
